@@ -117,6 +117,11 @@ def run_case(case):
     bad = {str(key): (t_s[key], t_g[key]) for key in t_s if not close(k * t_s[key], t_g[key])}
     if bad:
         viol.append(V("gene-scaling-not-linear", k=k, diffs=dict(list(bad.items())[:4])))
+    # one profile object serves several loads: the same sample read again with the SAME object gives the same depths
+    t_r = rc_table(gene, Sample(gene, prof, S))
+    bad = {str(key): (t_s[key], t_r[key]) for key in t_s if not close(t_s[key], t_r[key])}
+    if bad:
+        viol.append(V("depth-depends-on-earlier-load-with-the-same-profile-object", diffs=dict(list(bad.items())[:4])))
     # profile route equivalence (BAM vs file)
     other = dict(case, route="file" if case["route"] == "bam" else "bam")
     regions = {(gene.name, r, gi): rng for gi, gr in enumerate(gene.regions) for r, rng in gr.items()}
